@@ -239,9 +239,11 @@ def _gen_variants(rng, gene, contig_seq, opts):
         snps = [v for v in gene["variants"].values() if v["kind"] == "snp"]
         for v in snps[: rng.randint(1, 2)]:
             alts = [x for x in "ACGT" if x not in (v["ref"], v["alt"])]
-            vid += 1
-            w = dict(v, alt=rng.choice(alts), id=f"v{vid}")
-            gene["variants"][w["id"]] = w
+            rng.shuffle(alts)
+            for alt in alts[: rng.choice([1, 1, 2])]:  # up to three alternative alleles at one site
+                vid += 1
+                w = dict(v, alt=alt, id=f"v{vid}")
+                gene["variants"][w["id"]] = w
     # functional / silent split: at least half functional
     # (aldy only merges multi-nucleotide substitutions that are core variants,
     # sam.py `_multi_sites`, so generated MNPs are always functional)
